@@ -100,6 +100,8 @@ pub fn format_token(
     format_type: FormatTokenType,
     shape: Shape,
 ) -> (Token, Option<Vec<Token>>, Option<Vec<Token>>) {
+    #[cfg(feature = "verif-hooks")]
+    crate::verif_hooks::tick();
     let mut leading_trivia: Option<Vec<Token>> = None;
     let mut trailing_trivia: Option<Vec<Token>> = None;
 
